@@ -175,10 +175,20 @@ func (t TypeList) Find(name string) (Type, bool) {
 
 func (t *TypeList) Add(item ...Type) {
 	for _, i := range item {
-		if i.Name() != "" {
+		if i.Name() != "" && !t.contains(i) {
 			t.types = append(t.types, i)
 		}
 	}
+}
+
+// contains reports whether this very item (not merely one of the same name) is in the list.
+func (t *TypeList) contains(item Type) bool {
+	for _, existing := range t.types {
+		if existing == item {
+			return true
+		}
+	}
+	return false
 }
 
 func (t *TypeList) AddAndRet(item Type) Type {
